@@ -47,6 +47,9 @@ def prep(g, rnd, task, thumb, itpos, k):
     mode = modes[k % len(modes)]
     pc = rnd.randrange(2, 58) * 4
     C.randomize(st, rnd, mode=mode, thumb=thumb, it=it_state(rnd, itpos) if thumb else 0, pc=pc)
+    if g.cfg['arch_version'] >= 7:
+        # SCTLR.U is RAO on ARMv7: a v7 state with U = 0 does not exist
+        st['sys']['SCTLR'] = limbs(C.unlimbs(st['sys']['SCTLR']) | (1 << 22))
     if task.get('ns') and rnd.random() < 0.5:
         st['sys']['SCR'] = limbs(C.unlimbs(st['sys']['SCR']) | 1)
     # keep data addresses mostly inside the RAM so loads/stores do something
